@@ -3,6 +3,7 @@
   Clocks are unbounded `Int`s, skews unbounded `Nat`s; statements are about the full `Sp.process`.
 -/
 import PysamlModel.Proofs.Sp
+import PysamlModel.Proofs.SpFactory
 import PysamlModel.Proofs.SpTimes
 import PysamlModel.Props.C04
 import PysamlModel.Model.SpAttr
@@ -54,6 +55,15 @@ theorem C05_windows {cfg : Cfg} {env : Env} {r : Response} {o : Reported}
   obtain ⟨v, s, s', hs⟩ := hacc a ha
   exact accepted_timesOk hs
 
+/-- `C05_windows` for the factory entry point (`authn_response(...)` + `loads()` + `verify()`): the same windows,
+    for every visible assertion. -/
+theorem C05_windows_factory {cfg : Cfg} {env : Env} {r : Response} {o : Reported}
+    (h : processFactory cfg env r = .identity o) : ∀ a ∈ visible r, timesOk cfg env a = true := by
+  obtain ⟨rs, hacc⟩ := C04.visible_accepted_factory h
+  intro a ha
+  obtain ⟨v, s, s', hs⟩ := hacc a ha
+  exact accepted_timesOk hs
+
 /-- Spelled out for the Conditions element. -/
 theorem C05_expired {cfg : Cfg} {env : Env} {r : Response} {o : Reported}
     (h : process cfg env r = .identity o) (a : Assertion) (ha : a ∈ visible r) (c : Conditions)
@@ -82,16 +92,27 @@ theorem C05_inverted {cfg : Cfg} {env : Env} {r : Response} {o : Reported}
   have h1 := this.1.1.2
   simpa using h1
 
-/-- The Response IssueInstant is at most a day plus skew away from now. -/
-theorem C05_stale_instant {cfg : Cfg} {env : Env} {r : Response} {o : Reported}
-    (h : process cfg env r = .identity o) : issueInstantWithin cfg env r = true := by
-  obtain ⟨_, cf, _, rs, p, _, _, _, hv, _, _, _, _⟩ := process_identity_inv h
+/-- IssueInstant, from one successful `verify()` (shared by both entry points). -/
+theorem verify_stale_instant {cfg : Cfg} {env : Env} {rs : Bool} {st : St} {r : Response} {p : Parsed}
+    (hv : verify cfg env rs st r = .ok (some p)) : issueInstantWithin cfg env r = true := by
   obtain ⟨henv, _⟩ := verify_some_inv hv
   obtain ⟨_, _, hii, _⟩ := verifyEnvelope_true_inv henv
   unfold issueInstantOk at hii
   unfold issueInstantWithin
   simp only [Bool.and_eq_true, decide_eq_true_eq] at hii ⊢
   omega
+
+/-- The Response IssueInstant is at most a day plus skew away from now. -/
+theorem C05_stale_instant {cfg : Cfg} {env : Env} {r : Response} {o : Reported}
+    (h : process cfg env r = .identity o) : issueInstantWithin cfg env r = true := by
+  obtain ⟨_, cf, _, rs, p, _, _, _, hv, _, _, _, _⟩ := process_identity_inv h
+  exact verify_stale_instant hv
+
+/-- `C05_stale_instant` for the factory entry point. -/
+theorem C05_stale_instant_factory {cfg : Cfg} {env : Env} {r : Response} {o : Reported}
+    (h : processFactory cfg env r = .identity o) : issueInstantWithin cfg env r = true := by
+  obtain ⟨cf, p, _, hv, _⟩ := processFactory_identity_inv h
+  exact verify_stale_instant hv
 
 /-- The expiry reported to the application (single-assertion responses): SessionNotOnOrAfter when
     present (and positive), otherwise the Conditions NotOnOrAfter. -/
@@ -329,6 +350,15 @@ example : process okCfg (okEnv 260) okResp = .identity
   { nameId := some "n", issuer := "", cameFrom := some "/x", notOnOrAfter := 500, sessionIndex := some "s", cached := true } := by decide
 example : process okCfg (okEnv 261) okResp = .rejected .expired := by decide
 example : process okCfg (okEnv 29) okResp = .rejected .premature := by decide
+
+/-! Non-vacuity for the factory entry point: the same Response at the same clocks (accepted up to the skew boundary,
+    refused one second beyond it; nothing is cached there). -/
+example : processFactory okCfg (okEnv 100) okResp = .identity
+  { nameId := some "n", issuer := "", cameFrom := some "/x", notOnOrAfter := 500, sessionIndex := some "s", cached := false } := by decide
+example : (processFactory okCfg (okEnv 260) okResp).isIdentity = true := by decide
+example : processFactory okCfg (okEnv 261) okResp = .rejected .expired := by decide
+example : processFactory okCfg (okEnv 29) okResp = .rejected .premature := by decide
+example : processFactory okCfg (okEnv 100) { okResp with issueInstant := 100 + 86400 + 60 } = .noIdentity := by decide
 
 /-! The completeness premise reaches into the skew (skew 60, NotOnOrAfter 200, NotBefore 90):
     `now = 259 = NotOnOrAfter + skew − 1` and `now = 31 = NotBefore − skew + 1` fall under it, both premises of
